@@ -3,6 +3,7 @@ use crate::Ctx;
 pub mod c01;
 pub mod c02;
 pub mod c04;
+pub mod c05;
 pub mod c06;
 pub mod c08;
 pub mod c09;
@@ -10,6 +11,7 @@ pub mod c11;
 pub mod c12;
 pub mod c13;
 pub mod c15;
+pub mod c19;
 pub mod c20;
 
 pub fn dispatch(prop: &str, ctx: &Ctx) -> ! {
@@ -17,6 +19,7 @@ pub fn dispatch(prop: &str, ctx: &Ctx) -> ! {
         "C01" => c01::run(ctx),
         "C02" => c02::run(ctx),
         "C04" => c04::run(ctx),
+        "C05" => c05::run(ctx),
         "C06" => c06::run(ctx),
         "C08" => c08::run(ctx),
         "C09" => c09::run(ctx),
@@ -24,6 +27,7 @@ pub fn dispatch(prop: &str, ctx: &Ctx) -> ! {
         "C12" => c12::run(ctx),
         "C13" => c13::run(ctx),
         "C15" => c15::run(ctx),
+        "C19" => c19::run(ctx),
         "C20" => c20::run(ctx),
         "CALIBRATE" => {
             println!("tree: {:?}", crate::refmodel::tree::calibrate());
